@@ -170,9 +170,16 @@ PROPS['C04'] = {
 }
 
 TY = 'types::__verif_types::'
+CODEC_TRUSTED = [
+    'dependency contracts (unit codec prelude): std::io::Read / Take / Write for IN-MEMORY readers and writers (Cursor over a byte slice and Take of one, the only instantiations in the crate): a reader is the byte sequence still to be read, read_exact / byteorder reads consume a prefix and fail iff it is too short; a writer appends and fails iff no room is left',
+    'T1: byteorder calls (r.read_u8(), read_u16::<NetworkEndian>(), write_u8 ...) are written as calls of wrapper fns whose bodies are exactly those calls (byteorder::ByteOrder is sealed, Verus cannot attach a specification); readers / writers taken by value (`mut r: R` with callers passing `&mut r`) are taken as `&mut R` (std forwards Read/Write for &mut R)',
+    'std::net: SocketAddr is the transparent enum; SocketAddrV4/V6 are opaque records observed through ip/port accessors with constructor axioms (IPv6 flow info and scope id are not transmitted, the decoder sets them to 0)',
+    'R6: SmallVec lists (AddrList, PeerList, RangeList, key bytes) are modelled by Vec (push / pop / with_capacity / iteration only); ring UnparsedPublicKey is an opaque byte container',
+]
 PROPS['C16'] = {
     'level': 'proof',
-    'level_text': 'ONLY the fixed-size layer of the codecs is decided: Address / Range encode-decode round trip and totality (Kani, full domain). The variable-length messages (NodeInfo, InitMsg, RotationMessage), which are most of this property, are not decided.',
+    'level_text': 'Proof (Verus, real code, unbounded lengths, termination included): NodeInfo::{decode, decode_internal, decode_peer_list_part, decode_claims_part, read_addr_list, read_addr_list_inner}, Range::read_from, Address::{read_from, read_from_fixed} and RotationMessage::read_from against a format specification written from the wire format (value or error for EVERY byte sequence; unknown parts are skipped; only the length of the three fixed-size known parts is left unspecified when it disagrees with their content); the encoders NodeInfo::{encode_peer_list_part, encode_addrs_part}, Range/Address::write_to, RotationMessage::write_to against byte-exact output specifications; round-trip THEOREMS decode-spec(encode-spec(x)) == normalise(x) for peer lists (at most seven addresses per family, IPv6 first), claim lists and rotation messages. Proof (Kani, full domain): Range/Address codec. NOT decided: the handshake message codec (InitMsg), and the TLV framing on the encoder side (NodeInfo::encode_part / encode_internal: closures over Cursor<&mut [u8]> with seek).',
+    'verus': [{'unit': 'codec', 'rlimit': 60}],
     'kani': {
         'files': {'src/types.rs': ['kani/types.rs']},
         'harnesses': [
@@ -181,11 +188,12 @@ PROPS['C16'] = {
             K(TY, 'address_read_from_fixed_contract', 'Address::read_from_fixed: len > 16 or short input => Err; else exactly the next len bytes, rest zero', fns=['types::Address::read_from_fixed']),
         ],
     },
-    'trusted': ['std::io::Cursor / byteorder as compiled by Kani (real code, not stubbed)'],
+    'trusted': CODEC_TRUSTED + ['std::io::Cursor / byteorder as compiled by Kani (real code, not stubbed) in the Kani harnesses'],
     'not_decided': [
-        'NodeInfo::decode / encode round trip and normalisation (SmallVec, Take, loops over parts): Kani did not finish on 12 symbolic bytes; Verus would need a trusted model of io::Read',
-        'InitMsg::read_from / write_to, RotationMessage::read_from / write_to',
-        'skipping of unknown parts; decoder totality on arbitrary bytes for the variable-length messages',
+        'InitMsg::read_from / write_to (handshake message: signature, SmallVec of algorithms, 64 KiB buffers)',
+        'NodeInfo::encode_part / encode_internal / encode: the tag-length framing on the encoder side (FnOnce closures over Cursor<&mut [u8]> with seek-back to patch the length); exercised by every node-level test, but not under contract',
+        'composition of the part-level round trips into one NodeInfo-level theorem (needs the framing contract)',
+        'over-long known fixed-size parts (peer timeout, node id, own addresses with a length other than their content): the format defines nothing, the contract leaves the result open (the decoder continues inside the part)',
     ],
 }
 PROPS['C20'] = {
@@ -234,8 +242,9 @@ PROPS['C12'] = {
 
 PROPS['C08'] = {
     'level': 'proof',
-    'level_text': 'Proof for the per-peer receive path: MsgBuffer, CryptoCore::decrypt/encrypt (buffer geometry) and PeerCrypto::{handle_message, decrypt_message, encrypt_message, send_message} verbatim in Verus: for EVERY well-formed buffer (any length incl. 0, any content) and every state of the peer object every callee precondition (index bounds, arithmetic, assert!) is established, i.e. no panic. The variable-length decoders behind the handshake marker (InitMsg::read_from, NodeInfo::decode, RotationMessage) are NOT decided.',
-    'verus': [{'unit': 'buffer'}, {'unit': 'cloud', 'fns': ['GenericCloud::handle_net_message', 'GenericCloud::handle_message']}],
+    'level_text': 'Proof for the per-peer receive path: MsgBuffer, CryptoCore::decrypt/encrypt (buffer geometry) and PeerCrypto::{handle_message, decrypt_message, encrypt_message, send_message} verbatim in Verus: for EVERY well-formed buffer (any length incl. 0, any content) and every state of the peer object every callee precondition (index bounds, arithmetic, assert!) is established, i.e. no panic. NodeInfo::decode and RotationMessage::read_from (and the Range/Address decoders under them) are total on EVERY byte sequence (unit codec: no panic, no overflow, every loop terminates, allocation bounded by the 16-bit part length). The handshake decoder InitMsg::read_from is NOT decided.',
+    'verus': [{'unit': 'buffer'}, {'unit': 'cloud', 'fns': ['GenericCloud::handle_net_message', 'GenericCloud::handle_message']},
+              {'unit': 'codec', 'rlimit': 60, 'fns': ['Address::read_from.*', 'Range::read_from', 'NodeInfo::(read_addr_list.*|decode.*)', 'RotationMessage::read_from', 'lemma_flag_fields', 'lemma_prepend2', 'canary_.*']}],
     'kani': {
         'files': {'src/crypto/core.rs': ['kani/coreblocks.rs.in', 'kani/core.rs']},
         'harnesses': [
@@ -253,11 +262,13 @@ PROPS['C08'] = {
         'ring AEAD verdict is an oracle',
     ],
     'not_decided': [
-        'totality of InitMsg::read_from, NodeInfo::decode, RotationMessage::read_from on arbitrary bytes (handshake-marker datagrams reach InitMsg::read_from before any signature check)',
+        'totality of InitMsg::read_from on arbitrary bytes (handshake-marker datagrams reach it before any signature check); NodeInfo::decode and RotationMessage::read_from are proved total in unit codec',
         'node level dispatch (GenericCloud::handle_net_message frame) - see unit cloud when claimed',
         'observation (outside the quantifier of C08, sender holds a trusted key): a sealed datagram with EMPTY plaintext makes handle_message call take_prefix on an empty buffer, leaving start = end + 1; the next MsgBuffer::len()/message() underflows/panics',
     ],
 }
+
+PROPS['C08']['trusted'] = PROPS['C08']['trusted'] + CODEC_TRUSTED
 
 CLB = 'cloud::__verif_cloudblocks::'
 PROPS['C13'] = {
